@@ -134,13 +134,19 @@ fn check_mirror(ctx: &mut Ctx, mi: Mirror, s: &Step) -> Result<(), Violation> {
         if let Some(d) = bridge::obs_diff(&strip(&map_obs(mi, &a)), &strip(&c)) {
             ctx.fail("mirror:successor", format!("{} mirror, after {} / {}: {}", mi.name(), m.uci(), mi.mv(m).uci(), d), case())?;
         }
+        // the same through the in-place entry point on both sides
+        let a2 = observe(&bridge::make_in_place(b, bridge::mv(m), &mb));
+        let c2 = observe(&bridge::make_in_place(&mb, bridge::mv(mi.mv(m)), b));
+        if let Some(d) = bridge::obs_diff(&strip(&map_obs(mi, &a2)), &strip(&c2)) {
+            ctx.fail("mirror:successor", format!("{} mirror, after {} / {} (in-place make_move): {}", mi.name(), m.uci(), mi.mv(m).uci(), d), case())?;
+        }
     }
     // the whole history played in parallel on the image of the start position
     if !s.moves.is_empty() {
         let ms = mi.pos(s.start);
         if let Ok(mut pb) = bridge::board_via_builder(&ms) {
             for m in s.moves {
-                pb = pb.make_move_new(bridge::mv(mi.mv(*m)));
+                pb = bridge::advance(&pb, bridge::mv(mi.mv(*m)), fp(&ms) >> 5, &pb);
             }
             ctx.count("parallel_plies", s.moves.len() as u64);
             if let Some(d) = bridge::obs_diff(&strip(&map_obs(mi, &o)), &strip(&observe(&pb))) {
